@@ -68,6 +68,16 @@ func gobExtraDocs() []cdoc {
 		}
 		return `{` + m + `}`
 	}
+	// (and the other lists of an operation in their three states: absent, empty - which at operation level clears the document-wide
+	// value -, non-empty)
+	for _, k := range []string{"consumes", "produces", "tags", "schemes", "parameters"} {
+		for _, v := range []string{`[]`, map[string]string{"consumes": `["application/json"]`, "produces": `["text/plain"]`, "tags": `["t"]`, "schemes": `["https"]`,
+			"parameters": `[{"name":"q","in":"query","type":"string"}]`}[k]} {
+			out = append(out, cdoc{kind: "Operation", doc: mustJV(`{"` + k + `":` + v + `,"responses":{"200":{"description":"d"}}}`), phase: 2, tags: []string{"gob-extra", "security-state", "list-state"}})
+			out = append(out, cdoc{kind: "Swagger", doc: mustJV(`{"swagger":"2.0","info":{"title":"t","version":"1"},"paths":{"/a":{"get":{"` + k + `":` + v + `,"responses":{"200":{"description":"d"}}}}}}`),
+				phase: 2, tags: []string{"gob-extra", "security-state", "list-state"}})
+		}
+	}
 	secs := []string{"", `[]`, `[{}]`, `[{"k":[]}]`, `[{"k":["s"]},{}]`}
 	for _, s := range secs {
 		out = append(out, cdoc{kind: "Operation", doc: mustJV(op(s)), phase: 2, tags: []string{"gob-extra", "security-state"}})
